@@ -187,7 +187,8 @@ impl Parameter {
         result: &mut Vec<Token>,
     ) -> txl::Result<bool> {
         let mut matcher = matcher_factory.start();
-        let mut scope_depth = 0;
+        // A 64-bit counter: the depth is bounded only by the number of tokens in the input.
+        let mut scope_depth = 0_i64;
 
         // This handles the case of a macro whose argument ends with the special #{ tokens. In this special case the parsing
         // will end with a scope depth of 1, because the last token parsed will be the { and all braces before that will
